@@ -55,7 +55,15 @@ def real(tier, ev, fnd):
         bases = cfgx.configs60('none')
     else:
         bases = sorted({c._replace(mode='none') for c in cfgx.qset()})
-    ex = cfgx.Explorer()
+    # a generated profile that the common manifest and two distribution manifests name with different flags: the
+    # distribution's entry overrides the common one (shipped manifests only repeat the same flags)
+    def rd(rel):
+        return open(os.path.join(C.REPO, rel)).read().rstrip('\n') + '\n'
+    both = ('abi <abi/4.0>,\n\ninclude <tunables/global>\n\n@{exec_path} = @{bin}/verif-c05-both\nprofile verif-c05-both @{exec_path} flags=(mediate_deleted) {\n  include <abstractions/base>\n\n'
+            '  @{exec_path} mr,\n\n  profile sub {\n    include <abstractions/base>\n  }\n\n  include if exists <local/verif-c05-both>\n}\n')
+    ex = cfgx.Explorer(extra_src={'apparmor.d/groups/apps/verif-c05-both': both, 'dists/flags/main.flags': rd('dists/flags/main.flags') + 'verif-c05-both complain\n',
+                                  'dists/flags/debian.flags': rd('dists/flags/debian.flags') + 'verif-c05-both attach_disconnected\n',
+                                  'dists/flags/arch.flags': rd('dists/flags/arch.flags') + 'verif-c05-both attach_disconnected,complain\n'})
     try:
         cfgs = [b._replace(mode=m) for b in bases for m in cfgx.MODES]
         trees = ex.build_all(cfgs)
@@ -85,7 +93,7 @@ def real(tier, ev, fnd):
         # the baseline itself: in the build with neither option every block of the source file carries the source flags,
         # or -- for a file a flags manifest names (common, then per-distribution) -- exactly the manifest's flags
         from . import c04
-        files, _, _, flagged, _ = c04.expected(b)
+        files, _, _, flagged, _ = c04.expected(b, ex.snap)
         for f in fn:
             srcp = files.get('apparmor.d/' + f)
             if not srcp or not os.path.isfile(srcp):
